@@ -4,6 +4,7 @@ from __future__ import annotations
 import ast
 
 from .. import cfg as cfgmod
+from .. import pat
 from .. import deps as depsmod
 from ..index import AnalysisError, dotted_name, unparse
 from ..report import Relabel
@@ -20,7 +21,7 @@ EXPLANATION = (
     "sorting and restores them before the results are re-attached (index-clean typestate of C18 on the whole "
     "step). S4 every produced term receives the window (SQL `+ window_term` for each computed term, Polars "
     ".over(...) unless literal/column/series, Pandas every store comes from the grouped frame). S5 the null "
-    "partition is kept (groupby dropna=False). Not decided: the per-row values of each function. S6 fusion: the builder fuses two consecutive windowed extends into one node only when partition, the order *sequence*, reverse and the windowing mode are identical (the C06 merge precondition), so each term keeps the window it was declared with."
+    "partition is kept (groupby dropna=False). Not decided: the per-row values of each function. S6 fusion: the builder fuses two consecutive windowed extends into one node only when partition, the order *sequence*, reverse and the windowing mode are identical (the C06 merge precondition), so each term keeps the window it was declared with. S7 SQL merge: the guard of the extend-merge optimisation and the dependencies declared for each computed term include the partition and order columns, so a window never reads a key that the same SELECT redefines (inside OVER a name is the source column, not the alias)."
 )
 
 
@@ -39,6 +40,9 @@ def run(program, res, tier):
     from ..report import Relabel
     from . import c06
     c06._s2(program, NodeModel(program), Relabel(res, {"*": "C27-S6"}))
+    res.rule("C27-S7", "SQL: a windowed term is not merged into the SELECT that recomputes its partition / order keys")
+    from . import c04
+    c04._s1c(program, Relabel(res, {"*": "C27-S7"}))
     # ------------------------------------------------------------------ Pandas
     pe = program.method("pandas_base", "PandasModelBase", "_extend_step", inherited=False)
     res.analysed(pe)
@@ -87,9 +91,14 @@ def run(program, res, tier):
     # S3 ordering
     cap = [n for n in g.stmt_nodes(("stmt",)) if isinstance(n.stmt, ast.Assign) and isinstance(n.stmt.value, ast.Attribute) and n.stmt.value.attr == "index"]
     gbn = gb[0][0] if gb else None
+    # the working frame is the one whose positions are captured (`F[...] = F.index`); results are stored into it under the
+    # loop variable of `for k, opk in op.ops.items()`
+    wf = cap[0].stmt.value.value.id if cap and isinstance(cap[0].stmt.value.value, ast.Name) else "subframe"
+    opkeys = {l.target.elts[0].id for l in ast.walk(pe.node) if isinstance(l, ast.For) and unparse(l.iter) == "op.ops.items()"
+              and isinstance(l.target, ast.Tuple) and isinstance(l.target.elts[0], ast.Name)}
     stores = [n for n in g.stmt_nodes(("stmt",)) if isinstance(n.stmt, ast.Assign) and isinstance(n.stmt.targets[0], ast.Subscript)
-              and unparse(n.stmt.targets[0].value) == "subframe" and unparse(n.stmt.targets[0].slice) == "k"]
-    attach = [n for n in g.stmt_nodes(("stmt",)) if "add_data_frame_columns_to_data_frame_(res, subframe)" in unparse(n.stmt)]
+              and unparse(n.stmt.targets[0].value) == wf and unparse(n.stmt.targets[0].slice) in opkeys]
+    attach = [n for n in g.stmt_nodes(("stmt",)) if any(e["_F"] == wf for (_c, e) in pat.find("self.add_data_frame_columns_to_data_frame_(_R, _F)", n.stmt))]
     if cap and ns.id in g.reachable_from(cap[0].id) and cap[0].id not in g.reachable_from(ns.id):
         res.ok("C27-S3", "Pandas: original positions are captured before the sort")
     else:
@@ -155,14 +164,16 @@ def run(program, res, tier):
     res.analysed(sq)
     g3 = cfgmod.build(sq.node)
     d3 = depsmod.Deps(g3, sq.params())
-    tstores = [n for n in g3.stmt_nodes(("stmt",)) if isinstance(n.stmt, ast.Assign) and unparse(n.stmt.targets[0]) == "terms[ci]"]
+    tstores = [n for n in g3.stmt_nodes(("stmt",)) if isinstance(n.stmt, ast.Assign) and pat.match("_T[_CI] = __V", n.stmt) is not None
+               and any(isinstance(b.stmt, ast.For) and "subops" in unparse(b.cond) for b, _l in g3.lexical_guards(n))
+               and "expr_to_sql" in unparse(n.stmt.value)]
     if not tstores:
         raise AnalysisError("extend_to_near_sql: computed term stores not found")
     for n in tstores:
         v = n.stmt.value
         txt = unparse(v)
         roots = d3.roots_at(n, v)
-        if txt.endswith("+ window_term"):
+        if isinstance(v, ast.BinOp) and isinstance(v.op, ast.Add) and isinstance(v.right, ast.Name) and v.right.id not in sq.params():
             res.ok("C27-S4", "SQL: every computed term is `expr + window_term`")
         else:
             res.fail_at("C27-S4", sq, "sql-term-without-window", f"`{unparse(n.stmt)[:70]}` does not append the window clause", n.stmt)
